@@ -12,6 +12,7 @@ import tempfile
 
 import numpy as np
 
+from vmon import core
 from vmon import gen
 
 PROPERTY = 'C13'
@@ -46,7 +47,8 @@ _Q = {
     'nul-family-ids': 60, 'cohort=n': 40, 'cohort=1': 30, 'round>=1e5': 300,
     'stream-seed=0': 6,
 }
-MIN_HITS = {'quick': _Q, 'thorough': {k: 15 * v for k, v in _Q.items()}}
+MIN_HITS = {'quick': dict(_Q, **{'hit:fresh-interpreter-history': 60}),
+            'thorough': dict({k: 15 * v for k, v in _Q.items()}, **{'hit:fresh-interpreter-history': 800})}
 TECHNIQUE = ('runtime monitoring: history-table oracle over (seed, cohort, round) for UniformGetClientSampler under hostile '
              'request orders / fresh samplers / set_round_num, and restart-vs-from-zero differential for '
              'UniformShuffledClientSampler over identically seeded shuffled_clients streams')
@@ -211,9 +213,17 @@ def judge_round(ctx, jax, world, fd, res, cohort, rnd, keyseen, wit, fam, no_rep
   return tuple(bytes(c) for c in ids), tuple(keys), tuple(digs)
 
 
+# Per-case record of every judged sample() (family, round, via, ids, keys) when not None: compared with the same case replayed
+# in a fresh interpreter under another PYTHONHASHSEED (a restart is a new PROCESS: "the same (seed, round) gives the same cohort").
+TRACE = None
+
+
 def compare_history(ctx, hist, hkey, obs, wit, fam, names):
   if obs is None:
     return
+  if TRACE is not None:
+    TRACE.append((fam, hkey, wit.get('seed', wit.get('shuffle_seed')), wit.get('cohort'), [c.hex() for c in obs[0]],
+                  [k.hex() for k in obs[1]]))
   if hkey not in hist:
     hist[hkey] = (obs, wit.get('via'), wit.get('step'))
     return
@@ -439,12 +449,68 @@ def run(ctx):
   from fedjax.core import in_memory_federated_data as im
   from fedjax.core import sqlite_federated_data as sq
   mods = (fdm, im, sq)
+  global TRACE
   nget, nstream = (300, 150) if ctx.quick else (4500, 2250)
   tmpdir = tempfile.mkdtemp(prefix='vmon-c13-', dir=os.environ.get('VMON_WORK') or None)
+  traces = {}
   try:
     for cid, rng in ctx.cases('get', nget):
+      TRACE = []
       case_get(ctx, jax, cs, mods, rng, tmpdir, int(cid.split('/')[1]))
+      traces[cid], TRACE = TRACE, None
     for cid, rng in ctx.cases('stream', nstream):
+      TRACE = []
       case_stream(ctx, jax, cs, mods, rng, tmpdir, int(cid.split('/')[1]))
+      traces[cid], TRACE = TRACE, None
   finally:
     shutil.rmtree(tmpdir, ignore_errors=True)
+  if ctx.xproc_child:
+    return traces
+  # ---- a restarted run is a new process: the first histories of each family are replayed in a FRESH interpreter with another
+  # PYTHONHASHSEED and must hand out the same ids and keys for every (seed, round) (shards always run with PYTHONHASHSEED=0)
+  from vmon import xproc
+  k = XPROC_CASES['quick' if ctx.quick else 'thorough']
+  sel = [c for c in traces if c.startswith('get/')][:k] + [c for c in traces if c.startswith('stream/')][:k]
+  if sel:
+    hs = 1 + (ctx.seed + ctx.shard) % 97
+    other = xproc.run_child('vmon.checks.c13', {'tier': ctx.tier, 'seed': ctx.seed, 'cases': sel}, hs, timeout=1500)
+    for cid in sel:
+      ctx.cur_case = cid
+      mine, theirs = traces[cid], other['traces'].get(cid)
+      if theirs is None or [e[:4] for e in mine] != [e[:4] for e in theirs]:
+        raise core.HarnessError(f'{cid}: the fresh-interpreter replay ran a different program (harness is hash-dependent)')
+      ctx.count('hit:fresh-interpreter-history')
+      bad = next((i for i, (a, b) in enumerate(zip(mine, theirs)) if a != b), None)
+      w = None
+      if bad is not None:
+        a, b = mine[bad], theirs[bad]
+        w = {'other_pythonhashseed': hs, 'family': a[0], 'round': a[1], 'seed': a[2], 'cohort': a[3], 'ids_this_process': a[4],
+             'ids_fresh_process': b[4], 'keys_equal': a[5] == b[5]}
+      ctx.check(bad is None, 'xproc/cohort-differs-in-fresh-process',
+                'the same (dataset, seed, cohort size, round) sampled in a new Python process (other PYTHONHASHSEED) gives a '
+                'different cohort / different keys', w)
+    ctx.cur_case = None
+    for key in other['violation_keys']:
+      if key not in ctx.violation_keys:
+        v = next((v for v in other['violations'] if v['key'] == key), None)
+        ctx.cur_case = v['case'] if v else None
+        ctx.violation(key, (v['what'] if v else key) + f' [only in the fresh-interpreter replay, PYTHONHASHSEED={hs}]',
+                      v['witness'] if v else None)
+    ctx.cur_case = None
+
+
+XPROC_CASES = {'quick': 12, 'thorough': 40}
+
+
+def _xproc_child(payload):
+  from vmon.core import Ctx
+  ctx = Ctx(PROPERTY, payload['tier'], payload['seed'], 0, 1)
+  ctx.xproc_child = True
+  ctx.only_cases = set(payload['cases'])
+  traces = run(ctx)
+  return {'traces': traces, 'violation_keys': ctx.violation_keys, 'violations': ctx.violations}
+
+
+if __name__ == '__main__':
+  from vmon import xproc as _xproc
+  _xproc.child_main(_xproc_child)
